@@ -27,6 +27,11 @@ Statement of the property, and what is proved of it:
   every backlog of queued output iff the wait for the stdin writer is bounded
   (`c16_leave_bounded`, `c16_leave_sound`; an unbounded wait never returns against a child that
   does not read: `c16_unbounded_flush_never_returns`, `c16_unbounded_flush_waits_for_child`);
+* a child that closes its stdout and lives on is still terminated: an EOF on stdout is not an
+  exit (`c16_eof_is_not_exit` is the refutation of the shortcut; soundness is `c16_leave_sound`,
+  which quantifies over such children);
+* sequential sessions on ONE client object each end bounded and reaped (`c16_reuse_sound`); an
+  exit that runs once per object leaks from the second session on (`c16_exit_once_leaks_on_reuse`);
 * cancellation WHILE the context is being entered leaves no child running unless `__aenter__` has
   a cancellable await between the spawn and ownership (`c16_entry_cancel_no_orphan`,
   `c16_entry_gap_orphans`).
@@ -129,6 +134,20 @@ theorem flushPhase_le (d : Design) (w : Nat) (hw : d.flushWait = some w) (p : Ex
     | none => exact ⟨w, rfl, Nat.le_refl _⟩
     | some s => exact ⟨min w s, rfl, Nat.min_le_left _ _⟩
 
+theorem finish_le (d : Design) (os : OS) (p : ExitPath) (c : ChildSpec) :
+    (finish d os p c).duration ≤ graceTermMs + graceKillMs := by
+  unfold finish
+  split
+  · unfold reapOnly
+    split
+    · split <;> simp <;> omega
+    · simp
+  · exact c16_bounded _ _ _ _
+
+theorem finish_sound (os : OS) (p : ExitPath) (c : ChildSpec) :
+    finish Design.sound os p c = exit true os p c := by
+  simp [finish, Design.sound]
+
 /-- **Bounded, everything included.**  If what the exit does before cancelling its tasks (waiting
 for the stdin writer) is bounded by `w`, then for EVERY exit path, child, amount of queued output
 and OS — shielded or not — `__aexit__` returns, within `w + g₁ + g₂`. -/
@@ -137,7 +156,7 @@ theorem c16_leave_bounded (d : Design) (w : Nat) (hw : d.flushWait = some w) (os
     ∃ t, leave d os p c l = some t ∧ t.duration ≤ w + (graceTermMs + graceKillMs) := by
   obtain ⟨f, hf, hle⟩ := flushPhase_le d w hw p c l
   simp only [leave, hf]
-  exact ⟨_, rfl, Nat.add_le_add hle (c16_bounded _ _ _ _)⟩
+  exact ⟨_, rfl, Nat.add_le_add hle (finish_le _ _ _ _)⟩
 
 /-- The design the property asks for (no wait, shielded): within two seconds and reaped, for every
 exit path, every child and every backlog of queued output. -/
@@ -150,9 +169,11 @@ theorem c16_leave_sound (os : OS) (p : ExitPath) (c : ChildSpec) (l : Load)
   simp only [leave, hf]
   refine ⟨_, rfl, ?_, ?_⟩
   · show 0 + _ ≤ 2000
-    rw [Nat.zero_add]
+    rw [Nat.zero_add, finish_sound]
     exact c16_bounded_two_seconds _ _ _ _
-  · exact c16_reaped os p _ hkill hwait
+  · show (finish Design.sound os p _).child = .reaped
+    rw [finish_sound]
+    exact c16_reaped os p _ hkill hwait
 
 /-- **An unbounded wait for the writer, as a theorem.**  If the exit waits without bound for the
 stdin writer, then on a non-cancelled path, with a child that does not read, more queued than
@@ -169,6 +190,44 @@ theorem c16_unbounded_flush_waits_for_child (d : Design) (hd : d.flushWait = non
     (c : ChildSpec) (l : Load) (hp : p.cancelled = false) (hb : writerBlocked c l = true) (s : Nat)
     (hs : c.selfExit = some s) : ∃ t, leave d os p c l = some t ∧ s ≤ t.duration := by
   simp [leave, flushPhase, hp, hb, hd, hs]
+
+/-- **EOF on the child's stdout is not its exit.**  If the exit takes an EOF seen on stdout for
+"the child is going away" and merely waits for it, a child that closed its stdout and lives on
+(not exited, does not end by itself) is left RUNNING, unsignalled — on every exit path, shielded
+or not, whatever the OS.  (With the sound design `c16_leave_sound` covers such children: their
+`stdoutOpen = false` is never consulted.) -/
+theorem c16_eof_is_not_exit (d : Design) (hd : d.eofMeansGone = true) (os : OS) (p : ExitPath) (c : ChildSpec)
+    (ho : c.stdoutOpen = false) (he : c.exited = false) (hs : c.selfExit = none) :
+    (finish d os p c).child = .running ∧ (finish d os p c).signals = [] := by
+  simp [finish, hd, ho, he, reapOnly, hs]
+
+theorem sessionsFrom_sound (os : OS) (first : Bool) (ss : List (ExitPath × ChildSpec × Load)) :
+    sessionsFrom Design.sound os first ss = ss.map (fun s => leave Design.sound os s.1 s.2.1 s.2.2) := by
+  induction ss generalizing first with
+  | nil => rfl
+  | cons x xs ih =>
+    obtain ⟨p, c, l⟩ := x
+    have hx : Design.sound.exitOnce = false := rfl
+    simp only [sessionsFrom, hx, Bool.false_and, Bool.false_eq_true, if_false, List.map_cons, ih]
+
+/-- **Reuse.**  Any number of sequential sessions on one client object, each with its own exit
+path, child and backlog: EVERY session's exit returns within two seconds with its child reaped. -/
+theorem c16_reuse_sound (os : OS) (ss : List (ExitPath × ChildSpec × Load))
+    (hkill : os.killDelay < graceKillMs) (hwait : os.waitReaps = true) :
+    ∀ r ∈ sessions Design.sound os ss, ∃ t, r = some t ∧ t.duration ≤ 2000 ∧ t.child = .reaped := by
+  intro r hr
+  simp only [sessions, sessionsFrom_sound, List.mem_map] at hr
+  obtain ⟨s, _, rfl⟩ := hr
+  exact c16_leave_sound os s.1 s.2.1 s.2.2 hkill hwait
+
+/-- **An exit that runs once per object.**  If the exit is guarded by a flag that entering does
+not reset, the second session's exit does nothing: a child that is alive stays running. -/
+theorem c16_exit_once_leaks_on_reuse (d : Design) (hd : d.exitOnce = true) (os : OS)
+    (s₁ : ExitPath × ChildSpec × Load) (p : ExitPath) (c : ChildSpec) (l : Load)
+    (rest : List (ExitPath × ChildSpec × Load)) (hc : c.exited = false) :
+    (sessions d os (s₁ :: (p, c, l) :: rest))[1]? = some (some { signals := [], duration := 0, child := .running }) := by
+  obtain ⟨p₁, c₁, l₁⟩ := s₁
+  simp [sessions, sessionsFrom, hd, skippedExit, hc]
 
 /-- **Cancellation while entering.**  Without a cancellable await between the spawn and the point
 from which the child is owned, a cancellation delivered at ANY point of entering leaves no child
@@ -247,17 +306,33 @@ example : leave Design.sound ⟨5, true⟩ .normal (childSpec .neverReads .befor
     = some { signals := [(0, .term)], duration := 0, child := .reaped } := by decide
 
 /-- the same with an unbounded wait for the writer and a child that ends after 8 s: 8 s -/
-example : (leave ⟨true, none, false⟩ ⟨5, true⟩ .normal
+example : (leave { shielded := true, flushWait := none, entryGap := false } ⟨5, true⟩ .normal
       { childSpec .neverReads .before with selfExit := some 8000 } ⟨640000, 131072⟩).map (·.duration)
     = some 8000 := by decide
 
 /-- ... and never, with a real server -/
-example : leave ⟨true, none, false⟩ ⟨5, true⟩ .exception (childSpec .neverReads .inflight) ⟨640000, 131072⟩
+example : leave { shielded := true, flushWait := none, entryGap := false } ⟨5, true⟩ .exception (childSpec .neverReads .inflight) ⟨640000, 131072⟩
     = none := by decide
 
 /-- the hypotheses of `c16_unbounded_flush_never_returns` are needed: a small backlog fits the pipe -/
-example : (leave ⟨true, none, false⟩ ⟨5, true⟩ .normal (childSpec .neverReads .before) ⟨2000, 131072⟩).isSome
+example : (leave { shielded := true, flushWait := none, entryGap := false } ⟨5, true⟩ .normal (childSpec .neverReads .before) ⟨2000, 131072⟩).isSome
     = true := by decide
+
+/-- a child that closes its stdout after one answer and ignores SIGTERM: killed and reaped -/
+example : leave Design.sound ⟨5, true⟩ .normal (childSpec (.closeStdout true 1) (.after 1)) ⟨0, 131072⟩
+    = some { signals := [(0, .term), (1000, .kill)], duration := 1005, child := .reaped } := by decide
+
+/-- ... and left running by an exit that trusts the EOF -/
+example : (leave { Design.sound with eofMeansGone := true } ⟨5, true⟩ .normal
+      (childSpec (.closeStdout false 0) .before) ⟨0, 131072⟩).map (·.child) = some .running := by decide
+
+/-- three sessions on one object -/
+example : (sessions Design.sound ⟨5, true⟩
+      (List.replicate 3 (.normal, childSpec .well (.after 1), ⟨0, 131072⟩))).map (·.map (·.child))
+    = [some .reaped, some .reaped, some .reaped] := by decide
+example : (sessions { Design.sound with exitOnce := true } ⟨5, true⟩
+      (List.replicate 3 (.normal, childSpec .well (.after 1), ⟨0, 131072⟩))).map (·.map (·.child))
+    = [some .reaped, some .running, some .running] := by decide
 
 example : pending [(1, "a"), (2, "b")] 2 = .returned "b" := by simp [pending]
 example : pending [(1, "a")] 2 = (.timedOut : ReqOutcome String) :=
